@@ -416,7 +416,10 @@ impl Stream for ClassicPWMJStream {
         mut self: std::pin::Pin<&mut Self>,
         cx: &mut std::task::Context<'_>,
     ) -> Poll<Option<Self::Item>> {
-        self.poll_next_impl(cx)
+        // `record_poll` fills in `output_rows` and `end_time`; `elapsed_compute` is handled
+        // by `BuildProbeJoinMetrics::drop`.
+        let poll = self.poll_next_impl(cx);
+        self.join_metrics.baseline.record_poll(poll)
     }
 }
 
